@@ -82,6 +82,8 @@ var trTargets = []trTarget{
 	{Pkg: evm + "app/antedl/cosmoslane", Recv: "CLVestingMessagesAuthorizationDecorator", Name: "AnteHandle", EraseObj: true},
 	{Pkg: evm + "app/antedl/duallane", Recv: "DLValidateBasicDecorator", Name: "AnteHandle", EraseObj: true},
 	{Pkg: evm + "x/vauth/keeper", Recv: "msgServer", Name: "SubmitProofExternalOwnedAccount", EraseObj: true},
+	{Pkg: evm + "indexer", Name: "TxIndexKey"},
+	{Pkg: evm + "indexer", Name: "parseBlockNumberFromKey"},
 	{Pkg: evm + "app/antedl/evmlane", Recv: "ELValidateBasicEoaDecorator", Name: "AnteHandle", EraseObj: true},
 	{Pkg: evm + "app/antedl/evmlane", Recv: "ELSetupExecutionDecorator", Name: "AnteHandle", EraseObj: true},
 	{Pkg: evm + "app/antedl/evmlane", Recv: "ELEmitEventDecorator", Name: "AnteHandle", EraseObj: true},
